@@ -3,6 +3,9 @@
      mode logic   : mpz_and / mpz_ior / mpz_xor, every ordered pair of operands, alias modes (distinct, r == a, r == b, a == b)         [C10, C05]
      mode bits    : mpz_setbit / mpz_clrbit / mpz_combit, every operand x bit index from BITS                                           [C10]
      mode div2exp : mpz_{t,f,c}div_{q,r}_2exp, every operand x count from BITS, w == u and w != u                                        [C02, C05]
+     mode aorsmul : mpz_addmul_ui / mpz_submul_ui / mpz_addmul / mpz_submul (w, x, y) and mpz_mul (all alias modes) against two's-complement
+                    schoolbook arithmetic modulo 2^512 written here                                                                      [C01, C05]
+     mode mpq2exp : mpq_mul_2exp / mpq_div_2exp, every canonical num/den pair from the operand table x count from BITS, dst == src or not  [C12, C05]
    Operand space: 0..3 limbs over the limb alphabet {0, 1, 5, 2^63, 2^64-5, 2^64-1} (top limb non-zero), both signs: 431 values; destination
    allocations 1 limb (forces every realloc path) or generous.
    Oracles, from first principles: the two's-complement limb function  tc(z)[k] = z >= 0 ? Z[k] : ~(|z| - 1)[k];  for division
@@ -113,12 +116,103 @@ static int div2exp (void)
           }
   return 0;
 }
+/* ---- C01: w +- x*y and x*y against arithmetic modulo 2^(64*NW) on two's-complement limb strings (every value here is below 2^448 in magnitude) */
+#define NW 8
+typedef unsigned __int128 LL;
+static void tcv (const mpz_t z, L *o) { for (int k = 0; k < NW; k++) o[k] = tc (z, k); }
+static void mulv (const L *a, const L *b, L *o)
+{
+  for (int k = 0; k < NW; k++) o[k] = 0;
+  for (int i = 0; i < NW; i++)
+    { L cy = 0; for (int j = 0; i + j < NW; j++) { LL t = (LL) a[i] * b[j] + o[i + j] + cy; o[i + j] = (L) t; cy = (L) (t >> 64); } }
+}
+static void addv (L *a, const L *b, int sub) { L cy = sub; for (int k = 0; k < NW; k++) { LL t = (LL) a[k] + (sub ? ~b[k] : b[k]) + cy; a[k] = (L) t; cy = (L) (t >> 64); } }
+static int eqv (const mpz_t z, const L *e) { for (int k = 0; k < NW; k++) if (tc (z, k) != e[k]) return 0; return 1; }
+static int aorsmul (void)
+{
+  static const char *nm[5] = {"mpz_addmul_ui", "mpz_submul_ui", "mpz_addmul", "mpz_submul", "mpz_mul"};
+  L ew[NW], ex[NW], ey[NW], ep[NW];
+  /* w +- x*y: w = V[i], x = V[j]; y over the limb alphabet (_ui forms) or over 20 values of 0..2 limbs (mpz forms); alias 0 distinct, 1 w == x, 2 w == y, 3 x == y */
+  for (int op = 0; op < 4; op++)
+    for (int i = 0; i < nv; i++)
+      for (int j = 0; j < nv; j++)
+        for (int t = 0; t < (op < 2 ? 6 : 20); t++)
+          for (int al = 0; al < (op < 2 ? 2 : 4); al++)
+            {
+              int yi = op < 2 ? -1 : (t < 11 ? t : 11 + (t - 11) * 7);
+              if (al == 1 && i != j) continue;
+              if (al == 2 && yi != i) continue;
+              if (al == 3 && yi != j) continue;
+              mpz_t w, x, y; mpz_init_set (w, V[i]); mpz_init_set (x, V[j]); mpz_init (y);
+              L yu = 0;
+              if (op < 2) { yu = A[t]; mpz_set_ui (y, yu); } else mpz_set (y, V[yi]);
+              tcv (V[i], ew); tcv (V[j], ex); tcv (y, ey); mulv (ex, ey, ep); addv (ew, ep, op == 1 || op == 3);
+              mpz_srcptr xx = al == 1 ? w : x, yy = al == 2 ? w : al == 3 ? x : y;
+              switch (op) { case 0: mpz_addmul_ui (w, xx, yu); break; case 1: mpz_submul_ui (w, xx, yu); break; case 2: mpz_addmul (w, xx, yy); break; default: mpz_submul (w, xx, yy); }
+              int bad = !wf (w) || !eqv (w, ew);
+              if (al != 1 && mpz_cmp (x, V[j])) bad = 1;                                /* input-only operands unchanged */
+              if (op >= 2 && al != 2 && mpz_cmp (y, V[yi])) bad = 1;
+              if (bad) { printf ("FAIL %s", nm[op]); show ("w", V[i]); show ("x", V[j]); if (op < 2) printf (" y=%#lx", (unsigned long) yu); else show ("y", V[yi]); show ("result", w);
+                         printf (" alias=%d: result differs from w +- x*y (two's-complement schoolbook), is not normalised, or a source changed\n", al); return 1; }
+              mpz_clear (w); mpz_clear (x); mpz_clear (y); cases++;
+            }
+  /* r = x*y: alias 0 all distinct, 1 r == x, 2 r == y, 3 x == y (r distinct), 4 r == x == y */
+  for (int i = 0; i < nv; i++)
+    for (int j = 0; j < nv; j++)
+      for (int al = 0; al < 5; al++)
+        {
+          if (al >= 3 && i != j) continue;
+          mpz_t r, x, y; fresh (r, (i + j) & 1); mpz_init_set (x, V[i]); mpz_init_set (y, V[j]);
+          tcv (V[i], ex); tcv (V[j], ey); mulv (ex, ey, ew);
+          mpz_ptr rr = (al == 1 || al == 4) ? x : al == 2 ? y : r; mpz_srcptr xx = x, yy = (al == 3 || al == 4) ? x : y;
+          mpz_mul (rr, xx, yy);
+          int bad = !wf (rr) || !eqv (rr, ew);
+          if (rr != x && mpz_cmp (x, V[i])) bad = 1;
+          if (rr != y && mpz_cmp (y, V[j])) bad = 1;
+          if (bad) { printf ("FAIL mpz_mul"); show ("x", V[i]); show ("y", V[j]); show ("result", rr); printf (" alias=%d: result differs from x*y (two's-complement schoolbook), is not normalised, or a source changed\n", al); return 1; }
+          mpz_clear (r); mpz_clear (x); mpz_clear (y); cases++;
+        }
+  return 0;
+}
+/* ---- C12: dst = src * 2^n (resp. / 2^n): cross-multiplied identity  num(dst) * den(src) * [2^n] == num(src) * den(dst) * [2^n], dst canonical */
+static int mpq2exp (void)
+{
+  mpz_t g, l, r; mpz_init (g); mpz_init (l); mpz_init (r);
+  for (int op = 0; op < 2; op++)
+    for (int i = 0; i < nv; i++)
+      for (int j = 1; j < nv; j += 2)                 /* odd indices: the positive values */
+        {
+          if (V[j]->_mp_size <= 0) { printf ("ERROR operand table order\n"); return 2; }
+          mpz_gcd (g, V[i], V[j]);
+          if (mpz_cmp_ui (g, 1) != 0) continue;        /* canonical sources only */
+          for (unsigned c = 0; c < NB; c++)
+            for (int al = 0; al < 2; al++)
+              {
+                unsigned long n = BITS[c];
+                mpq_t a, b; mpq_init (a); mpq_init (b); mpz_set (mpq_numref (a), V[i]); mpz_set (mpq_denref (a), V[j]);
+                mpz_set_ui (mpq_numref (b), 0x5a5a); mpz_set_ui (mpq_denref (b), 77);
+                mpq_ptr d = al ? a : b;
+                if (op == 0) mpq_mul_2exp (d, a, n); else mpq_div_2exp (d, a, n);
+                int bad = !wf (mpq_numref (d)) || !wf (mpq_denref (d)) || mpz_sgn (mpq_denref (d)) <= 0;
+                mpz_gcd (g, mpq_numref (d), mpq_denref (d));
+                if (mpz_cmp_ui (g, 1) != 0) bad = 1;                                          /* canonical: gcd 1 (0 is 0/1) */
+                mpz_mul (l, mpq_numref (d), V[j]); mpz_mul (r, V[i], mpq_denref (d));
+                if (op == 0) mpz_mul_2exp (r, r, n); else mpz_mul_2exp (l, l, n);
+                if (mpz_cmp (l, r)) bad = 1;
+                if (!al && (mpz_cmp (mpq_numref (a), V[i]) || mpz_cmp (mpq_denref (a), V[j]))) bad = 1;
+                if (bad) { printf ("FAIL %s", op == 0 ? "mpq_mul_2exp" : "mpq_div_2exp"); show ("num", V[i]); show ("den", V[j]); printf (" n=%lu", n); show ("result_num", mpq_numref (d)); show ("result_den", mpq_denref (d));
+                           printf (" alias=%d: result is not src * 2^+-n in canonical form, or the source changed\n", al); return 1; }
+                mpq_clear (a); mpq_clear (b); cases++;
+              }
+        }
+  return 0;
+}
 int main (int argc, char **argv)
 {
   build ();
   if (nv != NV) { printf ("ERROR operand table %d\n", nv); return 2; }
   const char *m = argc > 1 ? argv[1] : "";
-  int r = !strcmp (m, "logic") ? logic () : !strcmp (m, "bits") ? bits () : !strcmp (m, "div2exp") ? div2exp () : 2;
+  int r = !strcmp (m, "logic") ? logic () : !strcmp (m, "bits") ? bits () : !strcmp (m, "div2exp") ? div2exp () : !strcmp (m, "aorsmul") ? aorsmul () : !strcmp (m, "mpq2exp") ? mpq2exp () : 2;
   if (r == 0) printf ("PASS %ld cases (%s)\n", cases, m);
   return r;
 }
